@@ -9,6 +9,7 @@ mod lin;
 mod doors;
 mod pipes;
 mod decls;
+mod chains;
 mod total;
 mod rewrite;
 mod text;
@@ -240,6 +241,13 @@ fn main() {
             let cases = read_cases(&arg(&args, "--cases").expect("--cases"));
             for c in &cases {
                 writeln!(out, "{}", decls::decls_event(c)).unwrap();
+            }
+        }
+        // chains --cases F : chains of -> and <-> through constraint!, expr! and the text (C16)
+        "chains" => {
+            let cases = read_cases(&arg(&args, "--cases").expect("--cases"));
+            for c in &cases {
+                writeln!(out, "{}", chains::chains_event(c)).unwrap();
             }
         }
         // pipes --cases F : arbitrary pipe sequences of Pipes.tla through the real PipeRunner (C16)
